@@ -313,7 +313,13 @@ def rename_contract(c: FnContract, ren: dict) -> FnContract:
     def blk(b):
         for cl in b.clauses:
             cl.expr = _sub_names(cl.expr, ren)
-    blk(c2.sig)
+    # in the signature block the name of the return value (@ret) is the contract's own, even if a local has the same name
+    ret_names = set(re.findall(r'[A-Za-z_][A-Za-z0-9_]*', c.ret or ''))
+    full = ren
+    ren = {k: v for k, v in full.items() if k not in ret_names}
+    if ren:
+        blk(c2.sig)
+    ren = full
     for l in c2.loops.values():
         blk(l.block)
         l.ghost = _sub_names(l.ghost, ren)
